@@ -31,6 +31,10 @@ def base_cases(tier, rnd):
         cases += genload.cases_for_rewrites(tier, rnd)
     except ImportError:
         pass
+    # chains whose later statements depend on what earlier ones taught the session (provider in use): what is learnt must not depend on layout
+    from . import c04
+    for g in c04.chains("quick", common.rng("c07-chains"))[: (60 if tier == "quick" else 260)]:
+        cases.append({"sql": g["sql"], "dialect": "ansi", "metadata": c04.MD, "src": "chain"})
     return cases
 
 
@@ -41,8 +45,8 @@ def run(tier):
     jobs = []
     if tier == "quick":
         rnd.shuffle(cases)
-        scripts = [c for c in cases if c["src"] == "generated:script"][:40]
-        for i, c in enumerate([c for c in cases if c["src"] != "generated:script"][:400]):
+        scripts = [c for c in cases if c["src"] == "generated:script"][:40] + [c for c in cases if c["src"] == "chain"][:40]
+        for i, c in enumerate([c for c in cases if c["src"] not in ("generated:script", "chain")][:400]):
             specs = rnd.sample(QUICK_SPECS, 7)
             jobs.append(dict(c, specs=specs, seed=common.env.seed() * 100000 + i))
         for i, c in enumerate(scripts):
